@@ -77,7 +77,8 @@ where
     }
 
     pub(crate) fn take_bytes(self, limit: usize) -> Result<Vec<u8>> {
-        let mut output = Vec::with_capacity(limit);
+        // Don't reserve `limit` bytes up front: it comes from sizes declared in the file.
+        let mut output = Vec::new();
         self.input.take(limit as u64).read_to_end(&mut output)?;
         if output.len() != limit {
             Err(AsepriteParseError::InvalidInput(format!(
@@ -91,9 +92,13 @@ where
     }
 
     pub(crate) fn unzip(self, expected_output_size: usize) -> Result<Vec<u8>> {
-        let mut decoder = ZlibDecoder::new(self.input);
-        let mut buffer = Vec::with_capacity(expected_output_size);
-        decoder.read_to_end(&mut buffer)?;
+        let decoder = ZlibDecoder::new(self.input);
+        // Don't reserve `expected_output_size` bytes up front: it comes from sizes
+        // declared in the file. Never decode more than the declared size either.
+        let mut buffer = Vec::new();
+        decoder
+            .take(expected_output_size as u64)
+            .read_to_end(&mut buffer)?;
         Ok(buffer)
     }
 }
